@@ -301,6 +301,10 @@ def _est_job(arg):
     mapd = second_annotator if cfg["multi"] else (lambda D: D)
     obj, owned = cfg["make"]()
     proto = clone(obj)                       # the unfitted prototype, never used for anything but cloning
+    # the wrappers around scikit-learn estimators: the wrapped estimator driven directly on the labeled rows
+    bare = None
+    if cfg["kind"] == "plain" and cfg["cls"] in ("SklearnClassifier", "SklearnRegressor", "SklearnNormalRegressor"):
+        bare = h.Bare(dict(owned)["estimator"], task)
     pids0, dids0 = h.observe(obj, owned, ids)
     pnames = [k for k, _ in h.param_digests(obj)]
     events, calls, n_eval = [], [], 0
@@ -324,6 +328,8 @@ def _est_job(arg):
                 pred = full_pred(obj, task)
             except Exception as ex:
                 pred, raised = h.raised_outcome(ex, ids), h.exc_text(ex)
+            if bare is not None:
+                bare.step(op, X, y, w, use_w_of(D))
             n_eval += 1
             try:
                 ref = clone(proto)
@@ -336,7 +342,7 @@ def _est_job(arg):
                 refpred = h.raised_outcome(ex, ids)
             p, dd = h.observe(obj, owned, ids)
             ev = {"ev": op, "d": D, "pids": p, "dids": dd, "pred": pred, "ref": refpred, "refcalls": refcalls,
-                  "match": 0}
+                  "match": 0, "base": bare.pred() if (bare is not None and not raised) else []}
             if raised:
                 ev["raised"] = raised
             events.append(ev)
@@ -361,6 +367,9 @@ def _est_job(arg):
             calls.append({"call": "set_params", "params": jsonable(new)})
             obj.set_params(**new)
             proto.set_params(**json_copy(new))
+            if bare is not None:
+                bare.proto.set_params(**{k[len("estimator__"):]: v for k, v in json_copy(new).items()
+                                         if k.startswith("estimator__")})
             owned = [(k, new[k]) if k in new else (k, o) for k, o in owned]
             p, dd = h.observe(obj, owned, ids)
             events.append({"ev": "SetParams", "pids": p, "dids": dd, "sym": bool(cfg["alt"][1])})
